@@ -275,6 +275,9 @@ def run():
         if not dev:
             r = vf.tlc_ok(vf.tlc(SPEC, "SandboxPath_MC", "SandboxPath_MC.cfg" if thorough else "SandboxPath_MCq.cfg", sd, timeout=2400, keep_stdout=False), "SandboxPath MC")
             chk.add_tlc(r, "MC Impl=fixed")
+            if thorough:
+                r2 = vf.tlc_ok(vf.tlc(SPEC, "SandboxPath_MC", "SandboxPath_MC2.cfg", sd, timeout=2400, keep_stdout=False), "SandboxPath MC2")
+                chk.add_tlc(r2, "MC Impl=fixed, longer spellings on the one/two-link family")
             rn = vf.tlc(SPEC, "SandboxPath_MC", "SandboxPath_MC_asis.cfg", sd, timeout=900)
             if rn.violated != "Safe":
                 raise vf.NoVerdict("negative control: the as-is SandboxJoin model did not violate Safe (%s %s)" % (rn.violated, rn.error))
@@ -294,7 +297,7 @@ def run():
         binp = vf.go_test_compile(ov, "./" + PKG + "/", os.path.join(sd, "sandbox.test"))
         vf.log("harness built in %.0fs" % (time.time() - t0))
         # 4. stage A: whole inventory x probe cases, under strace
-        nprobe = 10 if thorough else 4
+        nprobe = 10 if thorough else 3
         probe = []
         for cls in CLASSES:
             probe += rng.sample(bycls[cls], min(nprobe, len(bycls[cls])))
@@ -331,7 +334,7 @@ def run():
             sysB, odd2 = sys_records(sl, segsS, invS["selected"])
             odd += odd2
         # 6. calibration: core functions without sandbox
-        cal = rng.sample(cases, min(len(cases), 3000 if thorough else 300))
+        cal = rng.sample(cases, min(len(cases), 3000 if thorough else 200))
         t0 = time.time()
         outsP, _ = run_sharded(sd, binp, cal, "plain", CORE, "P", 2)
         vf.log("calibration: %d cases in %.0fs" % (len(cal), time.time() - t0))
